@@ -91,7 +91,7 @@ def check_uniquified(ctx, n, e_before, before, tag):
 
 def run_case(ctx, i, rng):
     profile = "any" if i % 3 == 0 else "flatten"
-    n = gen_ir.generate(rng, profile=profile, share=0.7, ndefs=rng.randint(3, 10), max_children=rng.choice([3, 4, 5]))
+    n = gen_ir.generate(rng, profile=profile, share=0.7, ndefs=rng.randint(3, 10), max_children=rng.choice([3, 4, 5]), big=(i % 30 == 7))
     # "any" may produce children without pins etc. but all children have references
     with_ids = (i % 4 == 1)
     if with_ids:
@@ -139,11 +139,21 @@ def run_case(ctx, i, rng):
                     if outer and rng.random() < 0.8:
                         rng.choice(outer).connect_pin(inst.pins[pin])
             ctx.count("definitions_edited_after_instancing")
+    if i % 6 == 2 and n.top_instance.reference.library is not None:
+        # the top definition is ALSO instanced from outside the top hierarchy (a test bench that holds the design)
+        topd_ = n.top_instance.reference
+        try:
+            bench_ = topd_.library.create_definition("BENCH_%d" % i)
+            bench_.create_child("dut", reference=topd_)
+            ctx.count("top_definitions_instanced_from_outside")
+        except ValueError:
+            pass
     if i % 5 in (1, 3):
         # sharing that sits DEEP: below the top a chain of instances that are each the only instance of their definition, and
         # at its end a non-leaf definition used twice
         topd = n.top_instance.reference
-        cands = [d_ for l in n.libraries for d_ in l.definitions if d_.children and d_ is not topd and d_.library is not None]
+        cands = [d_ for l in n.libraries for d_ in l.definitions if d_.children and d_ is not topd and d_.library is not None and
+                 not any(c_.reference is topd for c_ in d_.children)]       # (not the bench that holds the design: no recursion)
         if cands and topd.library is not None:
             a_ = rng.choice(cands)
             lib_ = a_.library
